@@ -16,3 +16,4 @@ def check(ctx, env):
     K.r4_2_validate_attribute(ctx, prog, rule="R18.3")
     from . import c09
     c09.r92(ctx, prog)
+    K.r18_5_builder(ctx, prog)
